@@ -94,4 +94,5 @@ def run(ctx):
     from props import c12m
     ctx.mir()
     ctx.parallel([('offset', c12m.offset_task)], max_procs=1)
-    ctx.run_kani(['c12.rs'])
+    # c13.rs: the `prop=C13,C12,C05` harness (Pinocchio dynamic tick array update_tick on a two-operation history; dynamic tick DATA is otherwise C13's part)
+    ctx.run_kani(['c12.rs', 'c13.rs'])
